@@ -37,7 +37,7 @@ bool known_f5_vector_reserve_unlimited_stream(int in_kind, const std::string& pa
   return f5_reserves<T>::value || (f5_reserve_reach<T>() && has_huge_varint(payload));
 }
 
-// F9 (finding of this target): a container of length-delimited elements reads each element's
+// Finding of this target (token c11-no-progress): a container of length-delimited elements reads each element's
 // length with `is.ReadVarint32(&length) ? length : 0`, so an unreadable length makes an "empty"
 // element whose parse succeeds without consuming anything, and the container loop never advances:
 // it spins forever and, for vector / list, grows without bound. Two ways to get there:
@@ -52,9 +52,9 @@ bool known_f5_vector_reserve_unlimited_stream(int in_kind, const std::string& pa
 // consecutive bytes with the continuation bit; (b) limit-less stream presentation and the root
 // reaches a vector of length-delimited or smart-pointer elements.
 template <class T>
-bool known_f9_unreadable_length_no_progress(int in_kind, const std::string& payload) {
-  if (in_is_unlimited_stream(in_kind) && f9_vector_reach<T>()) return true;
-  if (!f9_reach<T>()) return false;
+bool known_unreadable_length_no_progress(int in_kind, const std::string& payload) {
+  if (in_is_unlimited_stream(in_kind) && noprogress_vector_reach<T>()) return true;
+  if (!noprogress_reach<T>()) return false;
   int run = 0;
   for (unsigned char c : payload) {
     run = (c & 0x80) ? run + 1 : 0;
@@ -70,8 +70,8 @@ void run_root(int root, int in_kind, const Pattern& pat, const std::string& payl
     vfz::label("excluded_known_f5");
     return;
   }
-  if (known_f9_unreadable_length_no_progress<T>(in_kind, payload) && !allow_known("f9")) {
-    vfz::label("excluded_known_f9");
+  if (known_unreadable_length_no_progress<T>(in_kind, payload) && !allow_known("c11-no-progress")) {
+    vfz::label("excluded_known_no_progress");
     return;
   }
   Watchdog watchdog(desc, 5);
